@@ -97,9 +97,27 @@ def _limit_as(n):
     return f
 
 
+_SETARCH = None
+
+
+def no_aslr_prefix():
+    """`setarch -R` where the sandbox allows it: address-space layout becomes part of the
+    controlled environment for the engines that run under the shim."""
+    global _SETARCH
+    if _SETARCH is None:
+        try:
+            ok = subprocess.run(["setarch", "x86_64", "-R", "true"], capture_output=True).returncode == 0
+        except OSError:
+            ok = False
+        _SETARCH = ["setarch", "x86_64", "-R"] if ok else []
+    return _SETARCH
+
+
 def _run_chunk(binary, engine, sd, a, b, tier, timeout, extra_args=(), env=None, rlimit_as=None):
     cmd = [binary, engine, "--seed", str(sd), "--from", str(a), "--to", str(b), "--tier", tier]
     cmd += list(extra_args)
+    if env is not None and env.get("LD_PRELOAD"):
+        cmd = no_aslr_prefix() + cmd
     e = dict(env if env is not None else os.environ)
     e["VERIF_PROGRESS"] = "1"
     timed_out = False
@@ -282,10 +300,11 @@ def replay_file(path, timeout=300):
     binary = build(build_name)  # always against /repo's current tree
     if rec.get("process_level"):
         timeout = min(timeout, 100)
+    cmd = [binary, engine, "--replay", path]
+    if (rec.get("env") or {}).get("LD_PRELOAD"):
+        cmd = no_aslr_prefix() + cmd
     try:
-        r = subprocess.run(
-            [binary, engine, "--replay", path], capture_output=True, text=True, timeout=timeout, env=rec_env(rec)
-        )
+        r = subprocess.run(cmd, capture_output=True, text=True, timeout=timeout, env=rec_env(rec))
     except subprocess.TimeoutExpired:
         return {"reproduced": "/process/hang" in rec.get("key", ""), "key": rec.get("key"), "how": "timeout"}
     for line in r.stdout.splitlines():
